@@ -34,10 +34,36 @@ def run(ctx):
                 ctx.violation("edge-not-forward", "%s: edge %d -> %d" % (case["origin"], u, v), {"origin": case["origin"]})
         real.append(case)
     depcheck.run_shards(ctx, real, "real", size=2)
+    vocabulary(ctx)
+
+
+def vocabulary(ctx):
+    """(b) of the property's quantifier: a curated vocabulary of real instructions whose architectural roles are written down
+    in harness/c03_vocab.py independently of OSACA's ISA database, on the shipped models of each ISA"""
+    import models
+    import c03_vocab
+    avail = models.nonempty_archs()
+
+    def pipes_for(isa):
+        ms = [m for m in (models.X86 if isa == "x86" else models.A64) if m in avail]
+        if ctx.tier == "quick":
+            ms = ctx.rng.sample(ms, min(3, len(ms)))
+        out = []
+        for a in ms:
+            pipe = deps.Pipeline(ctx, isa, arch=a)
+            out.append((a, pipe.parser, pipe.sem))
+        return out
+    c03_vocab.run(ctx, pipes_for)
+    ctx.obligation("curated vocabulary: %d instruction x model pairs judged against architectural roles" %
+                   (ctx.coverage["curated_vocabulary"]["x86"] + ctx.coverage["curated_vocabulary"]["aarch64"]),
+                   "oracle", ctx.coverage["curated_vocabulary"]["x86"] > 0 and ctx.coverage["curated_vocabulary"]["aarch64"] > 0)
 
 
 def replay(ctx, obj):
     r = obj["replay"]
+    if r.get("kind") == "vocab":
+        vocabulary(ctx)
+        return
     if r.get("db"):
         pipe = deps.Pipeline(ctx, r["isa"], r["db"]["isa_yaml"], r["db"]["arch_yaml"])
         case, kernel, dg = deps.build_case(pipe, r["text"], r["flagdeps"])
